@@ -17,3 +17,7 @@ ASSUMPTIONS = ["itertools.groupby groups adjacent equal keys; ChainMap lookup or
 def run(project, rep):
     rep.run(G.j_rules, project, rep)
     rep.run(G.cli_layer_rule, project, rep)
+    from .. import rules_dates as Z
+    rep.rule("J-R4", "the dates given on the command line denote the instants requested: convert_datetime uses the DateTime converter, whose offset plumbing is decided by Z-R4 / Z-R5")
+    rep.run(Z.z_r4_conversion, project, rep)
+    rep.run(Z.z_r5_offset_sign, project, rep)
